@@ -1,4 +1,7 @@
+import CirqVerif.Props.C01
+import CirqVerif.Props.C03
+import CirqVerif.Props.C05
+import CirqVerif.Props.C08
 import CirqVerif.Props.C18
 import CirqVerif.Props.C18Views
-import CirqVerif.Props.C05
-import CirqVerif.Props.C01
+import CirqVerif.Obligations.C03
